@@ -114,6 +114,23 @@ pub fn one<S: Src, const P: u8, const L: usize, const NT: usize, const NV: usize
             cov!(s, P, C04, n >= 16, "proc: response probed");
         }
     }
+    // ---------------------------------------------------------------- C07: responses written by the processor are encoded responses too
+    if P == C07 {
+        if let Some(n) = answered {
+            chk!(s, P, C07, n >= 13 && n <= OUT && out[8] == 0x00 && out[9] & 0xE0 == 0x00, "process response: control message with the request, datagram and reserved bits clear");
+            chk!(s, P, C07, out[10] == cmd && out[11] <= 5, "process response: command code of the command being answered, then a completion code");
+            if out[11] == 0 && cmd == 4 {
+                chk!(s, P, C07, n == 18 && out[12] == 1 && out[13] == 0xF1 && out[14] == 0xF3 && out[15] == 0xF1 && out[16] == 0x00, "process response: Get MCTP Version Support carries one entry F1 F3 F1 00");
+            }
+            if out[11] == 0 && cmd == 2 {
+                chk!(s, P, C07, n == 16 && (out[12] == resp0 || out[12] == req0), "process response: Get Endpoint ID carries the current EID");
+            }
+            if out[11] == 0 && cmd == 1 {
+                chk!(s, P, C07, n == 16 && out[12] & 0xCC == 0 && out[13] == resp_eid && out[14] == 0, "process response: Set Endpoint ID carries status, the current EID and pool size 0");
+            }
+            cov!(s, P, C07, (b[9] & 0x60) != 0, "proc: request with the datagram or reserved bit set answered");
+        }
+    }
     // ---------------------------------------------------------------- C10
     if P == C10 {
         cov!(s, P, C10, answered.is_some(), "proc: a request was answered");
@@ -274,6 +291,92 @@ pub fn one<S: Src, const P: u8, const L: usize, const NT: usize, const NV: usize
             covopt!(s, P, C15, true, "proc: version reported");
         }
     }
+}
+
+/// Inputs too short to be a control request: `N`-byte arbitrary array (N <= 11), length `K` if
+/// `K <= N`, otherwise symbolic 0..=N (costs ~10 GB in the C11 instance: thorough tier), handed to `process_packet` directly — the processor must treat them exactly as the
+/// decoder does (C10 no panic, C11 same verdict / no response / buffer untouched, C02 and C13
+/// nothing changes). Vendor / SPDM messages of 10 and 11 bytes are accepted and passed through.
+pub fn short<S: Src, const P: u8, const N: usize, const K: usize>(s: &mut S) {
+    let cfg: Cfg<2, 2> = Cfg::draw(s);
+    s.assume(cfg.nv >= 1);
+    s.assume(cfg.vend[0].format <= 1 && cfg.vend[1].format <= 1);
+    let a: [u8; N] = s.arr();
+    let n = if K <= N {
+        K
+    } else {
+        let n = s.usize();
+        s.assume(n <= N);
+        n
+    };
+    let b = &a[..n];
+    let prior: [u8; OUT] = s.arr();
+    let rd = ref_decode(b);
+    s.assume(!kf::dec_any(b));
+    let ctx = cfg.build();
+    let req0 = ctx.get_request().get_eid();
+    let resp0 = ctx.get_response().get_eid();
+    let sel0 = ctx.verif_get_vendor_id_selector();
+    let mut out = prior;
+    let r = ctx.process_packet(b, &mut out);
+    reached!(s, "proc-short: process_packet returned");
+    let same_state = ctx.get_request().get_eid() == req0 && ctx.get_response().get_eid() == resp0
+        && ctx.verif_get_vendor_id_selector() == sel0;
+    if P == C10 {
+        covopt!(s, P, C10, r.is_err() && n == 0, "proc-short: empty input rejected");
+        covopt!(s, P, C10, r.is_err() && n == 11 && rd.hdr_ok && rd.typ == 0, "proc-short: truncated control packet rejected");
+        covopt!(s, P, C10, r.is_ok(), "proc-short: short vendor/SPDM message passed through");
+        cov!(s, P, C10, r.is_err(), "proc-short: short input rejected");
+    }
+    if P == C02 {
+        if n < 2 || !rd.pec_ok {
+            chk!(s, P, C02, r.is_err(), "short input whose last byte is not the PEC of the rest is not processed successfully");
+            chk!(s, P, C02, unchanged(&out, &prior, 0) && same_state, "short input with a bad PEC: no response byte, EID and selector unchanged");
+            covopt!(s, P, C02, n == 10 && rd.hdr_ok, "proc-short: 10-byte message with a corrupted PEC rejected");
+        }
+    }
+    if P == C11 {
+        let d = ctx.decode_packet(b);
+        match (&d, &r) {
+            (Ok((t, p)), Ok(((t2, p2), o))) => {
+                chk!(s, P, C11, t == t2 && p.len() == p2.len() && core::ptr::eq(p.as_ptr(), p2.as_ptr()), "short input: processing reports the type and payload decoding reports");
+                chk!(s, P, C11, o.is_none(), "short input: no response is reported (it cannot be a control request)");
+                covopt!(s, P, C11, *t == MessageType::VendorDefinedPCI && n == 10, "proc-short: 10-byte PCI vendor message passed through");
+            }
+            (Err(e), Err(e2)) => {
+                chk!(s, P, C11, e == e2, "short input: processing reports the error decoding reports");
+                covopt!(s, P, C11, n < 10, "proc-short: input shorter than the headers rejected");
+                cov!(s, P, C11, true, "proc-short: rejected like the decoder rejects it");
+            }
+            _ => {
+                chk!(s, P, C11, false, "short input: processing and decoding agree on accept / reject");
+            }
+        }
+        chk!(s, P, C11, unchanged(&out, &prior, 0), "short input: every byte of the response buffer is unchanged");
+    }
+    if P == C13 {
+        chk!(s, P, C13, same_state, "short input leaves the EID of both halves unchanged");
+        covopt!(s, P, C13, n == 11 && rd.hdr_ok && rd.typ == 0 && a[10] == 0x01, "proc-short: truncated Set Endpoint ID");
+    }
+}
+
+/// Maximum-size inputs (C10 only): `L` arbitrary bytes (L up to the SMBus maximum 259) straight
+/// into `process_packet`. The general harness `one` does not finish at this size (17 GB / 50 min),
+/// so this one carries nothing but the call: no reference decoder, no second CRC circuit — the
+/// open finding classes are excluded by their header bytes alone (without the "PEC is correct"
+/// conjunct, i.e. a slightly larger exclusion), and the only obligation is "returns".
+pub fn long<S: Src, const P: u8, const L: usize>(s: &mut S) {
+    let cfg: Cfg<1, 1> = Cfg::draw(s);
+    s.assume(cfg.nv == 1 && cfg.vend[0].format <= 1);
+    let b: [u8; L] = s.arr();
+    s.assume(!kf::dec_any(&b));
+    s.assume(!kf::proc_any(&b, true, cfg.nv));
+    let ctx = cfg.build();
+    let mut out = [0u8; OUT];
+    let r = ctx.process_packet(&b, &mut out);
+    reached!(s, "proc-long: process_packet returned");
+    cov!(s, P, C10, r.is_err(), "proc-long: a maximum-size input was rejected");
+    covopt!(s, P, C10, matches!(r, Ok((_, Some(_)))), "proc-long: a maximum-size request was answered");
 }
 
 /// Witness of an open process_packet finding `K`.
